@@ -51,8 +51,10 @@ def render(h: HState, sn: str, ev: dict) -> str | bytes:
         return f"{u}SEARCH {ev.get('key', 'ALL')}"
     if op == "expunge":
         return "EXPUNGE" if not ev.get("uidset") else f"UID EXPUNGE {h._which(sn, ev['uidset'], True)}"
-    if op in ("noop", "check", "close"):
+    if op in ("noop", "check", "close", "capability", "namespace"):
         return op.upper()
+    if op == "lsub":
+        return 'LSUB "" "*"'
     if op in ("select", "examine"):
         return f"{op.upper()} \"{ev['m']}\""
     if op == "append":
